@@ -390,13 +390,19 @@ func checkC09(c *Check) {
 	// ---- 2: main process only (ptracer): with pid != main pid, no verdict
 	if handle != nil {
 		pidParam := handle.Params[1]
-		for _, mode := range []struct {
+		type pidMode struct {
 			label            string
 			exited, signaled bool
-		}{{"exited", true, false}, {"signaled", false, true}} {
+			sig              int64
+		}
+		modes := []pidMode{{"exited", true, false, 0}}
+		for sig := int64(1); sig <= 64; sig++ {
+			modes = append(modes, pidMode{fmt.Sprintf("signaled(%d)", sig), false, true, sig})
+		}
+		for _, mode := range modes {
 			var bad []string
 			w := &walker{fn: handle}
-			w.Seed = seedChain(classifierSeeds(mode.exited, mode.signaled, 9, 3), func(w *walker, st *wstate, v ssa.Value) *absVal {
+			w.Seed = seedChain(classifierSeeds(mode.exited, mode.signaled, mode.sig, 3), func(w *walker, st *wstate, v ssa.Value) *absVal {
 				if b, ok := v.(*ssa.BinOp); ok && b.Op == token.EQL {
 					if (b.X == pidParam && isFieldLoad(b.Y)) || (b.Y == pidParam && isFieldLoad(b.X)) {
 						return avBool(false)
@@ -416,21 +422,41 @@ func checkC09(c *Check) {
 				"a secondary pid that "+mode.label+" yields a verdict: "+strings.Join(bad, " | "))
 		}
 	}
-	c.Expect("2/main-pid-only", 2)
-	// unshare.Run / waitLoop wait for the specific pid (first arg of Wait4 is not the constant -1)
-	for _, fk := range [][2]string{{"runner/unshare", "Runner.Run"}} {
+	c.Expect("2/main-pid-only", 66)
+	// unshare.Run and the container's wait loop wait for exactly the started pid: the first argument of the
+	// classifying Wait4 is the pid value itself (not negated = process group, not a constant)
+	for _, fk := range [][2]string{{"runner/unshare", "Runner.Run"}, {"container", "containerServer.waitLoop"}} {
 		fn := p.Func(fk[0], fk[1])
 		if fn == nil {
+			c.Undecided("2/main-pid-only", fk[0]+"."+fk[1]+":Wait4", "-", "function not found")
 			continue
 		}
+		nw := 0
 		for _, ci := range callInstrs(fn) {
 			n, _ := calleeOf(ci)
-			if strings.HasSuffix(n, ".Wait4") {
-				_, isConst := constInt(ci.Common().Args[0])
-				c.Cond(!isConst, "2/main-pid-only", fk[0]+"."+fn.Name()+":Wait4", p.Pos(ci.Pos()),
-					"Wait4 targets the started pid", "Wait4 on a constant pid in a runner")
+			if !strings.HasSuffix(n, ".Wait4") {
+				continue
 			}
+			a := ci.Common().Args[0]
+			// the status pointer is nil for reaping-only waits (wait-all), those may use -1
+			if isNilConst(ci.Common().Args[1]) {
+				continue
+			}
+			nw++
+			ok := false
+			switch v := stripConv(a).(type) {
+			case *ssa.Extract:
+				ok = true // pid returned by Start / received from the channel
+				_ = v
+			case *ssa.Parameter:
+				ok = true
+			case *ssa.UnOp:
+				ok = v.Op == token.ARROW || v.Op == token.MUL // received pid / pid held in a local
+			}
+			c.Cond(ok, "2/main-pid-only", fk[0]+"."+fn.Name()+":Wait4", p.Pos(ci.Pos()),
+				"the classified wait status is that of exactly the started pid", "the classifying Wait4 waits on "+describe(a)+" (a process group or any child): another process's status can be reported as the program's")
 		}
+		c.Cond(nw > 0, "2/main-pid-only", fk[0]+"."+fn.Name()+":Wait4-sites", p.Pos(fn.Pos()), "classifying wait found", "no classifying Wait4 found")
 	}
 
 	// ---- 3: host pass-through
